@@ -246,7 +246,7 @@ func genC16(gm *GoModel) {
 				rest = append(rest, s.Name)
 			}
 		}
-		for i := 0; i < envInt("KMSGGEN_SAMPLE", 6) && len(rest) > 0; i++ {
+		for i := 0; i < envInt("KMSGGEN_SAMPLE", 8) && len(rest) > 0; i++ {
 			k := int(rnd(uint64(i)) % uint64(len(rest)))
 			selected[rest[k]] = true
 			sampled[rest[k]] = true
@@ -255,7 +255,7 @@ func genC16(gm *GoModel) {
 	}
 	// bounds
 	k := 3    // symbolic bytes past the fixed-width prefix
-	npos := 6 // mutated positions per (type, version); 0 = every position
+	npos := 8 // mutated positions per (type, version); 0 = every position
 	win := 1  // mutation window
 	if thorough {
 		k, npos, win = 3, 6, 1
